@@ -165,6 +165,7 @@ func vstubPathJoin(a, b string) string {
 
 // verif: mode=int
 func VH_C16_ParseDispatch() {
+	vParseCalled, vEscapeCalls, vEscapeArgsOK, vParsedEscaped = 0, 0, false, false // (several tapes replay in one process)
 	in := string(vNondetBytes("addr", 8))
 	if vNondetBool("parse_fails") {
 		vURL, vURLErr = nil, vErrParse
